@@ -1232,8 +1232,11 @@ def main():
     # wide (full 64-bit) values into narrower targets: the fit clause
     for tn in ("verifL_Int16", "verifL_Int32"):
         ga.harness_read(cata["verifL_Int64"], cata[tn], "fit", wide=True)
-    for t in catalogue_c20(ga):
+    catalogue_c20_types = catalogue_c20(ga)
+    for t in catalogue_c20_types:
         ga.harness_c20(t)
+    c15 = [t for _, t in ta] + catalogue_c20_types
+    ga.w("func verifC15Catalogue() []any {\n\treturn []any{%s}\n}\n" % ", ".join("%s{}" % t.name for t in c15))
     emit_c05(ga)
     emit_c06(ga, [cata[n] for n in ("verifL_Int64", "verifL_Int16", "verifL_String", "verifL_Bytes", "verifL_Bool", "verifL_Float32", "verifL_Float64",
                                     "verifO_Int64", "verifO_String", "verifP_Int64", "verifP_String", "verifS_Int64", "verifS_String", "verifM_Int64", "verifM_String",
